@@ -70,6 +70,26 @@ def programs():
     P.append(('findall_nat3', [(C('t', V('L')), ('call', C('findall', X, C('mem', X, L([A('a'), A('b'), A('c')])), V('L'))))] + mem, 't', [V('Q')]))
     P.append(('once_nat', [(C('t', X), ('call', C('once', C('nat', X))))] + nat, 't', [V('Q')]))
     P.append(('mem30', mem, 'mem', [V('Q'), L([I(i) for i in range(30)])]))
+    # a fact whose first argument binds a query variable to a constant and whose second argument is deep: the limit
+    # strikes inside the unification of the later argument, after the earlier one has been bound
+    for n in (40, 75):
+        P.append(('const_then_long%d' % n, [(C('r', A('utrecht'), L([A('a')] * n)), ('true',)), (C('r', A('ams'), L([A('a')] * (n + 1))), ('true',)),
+                                             (C('r', A('x'), NIL), ('true',))], 'r', [V('Q'), L([A('a')] * n)]))
+    # the same through dynamic facts (asserted through the API in the child): fact matching unifies argument lists
+    for n in (40, 75):
+        P.append(('dyn_const_then_long%d' % n, [(C('r', A('utrecht'), L([A('a')] * n)), ('true',)), (C('r', A('ams'), L([A('a')] * (n + 1))), ('true',)),
+                                                 (C('r', A('x'), NIL), ('true',))], 'r', [V('Q'), L([A('a')] * n)]))
+    # the deep term comes from the QUERY side only (facts are shallow): copying the fact succeeds, looking at the
+    # query argument overflows after an earlier argument has been bound
+    for n in (45, 80):
+        P.append(('dyn_query_side_long%d' % n, [(C('r', A('utrecht'), L([A('a'), A('b')])), ('true',)), (C('r', A('ams'), NIL), ('true',)),
+                                                (C('r', A('zwolle'), A('none')), ('true',))], 'r', [V('Q'), L([A('a')] * n)]))
+        P.append(('query_side_long%d' % n, [(C('r', A('utrecht'), L([A('a'), A('b')])), ('true',)), (C('r', A('ams'), NIL), ('true',)),
+                                            (C('r', C('f', V('X')), V('X')), ('true',))], 'r', [V('Q'), L([A('a')] * n)]))
+    P.append(('dyn_pair_const_then_deep', [(C('d3', C('pair', A('k'), peano(60))), ('true',)), (C('d3', C('pair', A('m'), peano(61))), ('true',))], 'd3',
+              [C('pair', V('Q'), peano(60))]))
+    P.append(('const_then_deep', [(C('d2', A('k'), I(1), peano(70)), ('true',)), (C('d2', A('m'), I(2), peano(71)), ('true',))], 'd2',
+              [V('Q'), V('R'), peano(70)]))
     P.append(('deep_then_answers', [(C('d', X), ('and', ('call', C('down', peano(60))), ('call', C('mem', X, L([A('a'), A('b')])))))] + down + mem, 'd', [V('Q')]))
     return P
 
@@ -133,12 +153,19 @@ def setup(tier, seed):
     return {'real': real, 'tier': tier, 'limits': limits(tier), 'expected': exp}
 
 
-def child(ctx, prog, limit, fault, hold):
+def child(ctx, prog, limit, fault, hold, nested=False):
     """runs in a forked child; returns a JSON-able dict"""
     real = ctx['real']
     E = real.E
     name, cl, qn, qa = prog
-    yp = real.engine(real.compile(rprogram(cl)))
+    if name.startswith('dyn_'):
+        yp = real.engine()
+        for h, b in cl:
+            yp.assert_fact(yp.atom(h[1]), [build_real(yp, a, {}) for a in h[2]])
+    else:
+        yp = real.engine(real.compile(rprogram(cl)))
+    yp.assert_fact(yp.atom('nestp'), [1])
+    yp.assert_fact(yp.atom('nestp'), [2])
     vmap = {}
     rargs = [build_real(yp, t, vmap) for t in qa]
     trace = []
@@ -179,8 +206,14 @@ def child(ctx, prog, limit, fault, hold):
     exc_obj = {'Custom': Custom('boom'), 'RuntimeError': RuntimeError('boom'), 'StopIteration': StopIteration('boom'),
                'KeyboardInterrupt': KeyboardInterrupt('boom')}
 
+    inner_results = []
+
     def proj(x):
         count[0] += 1
+        if nested:
+            # re-entrant use: the projection runs its own bounded sub-query on the same engine
+            iv = yp.variable()
+            inner_results.append(len(yp.evaluate_bounded(yp.query('nestp', [iv]), lambda y: 1, limit + 37)))
         if fault and count[0] == fault[0]:
             raise exc_obj[fault[1]]
         if count[0] >= 12:
@@ -214,6 +247,7 @@ def child(ctx, prog, limit, fault, hold):
         left = len(real.reg.bound())
         out['needed_gc'] = True
     orig_set(1000)
+    out['inner_results'] = inner_results[:20]
     out.update({'result': res, 'exc': exc, 'before_limit': before_limit, 'after_limit': after_limit, 'trace': trace,
                 'bound_after': left - pre_bound, 'live_variables': len(real.reg.live), 'unraisable': real.unr.take()[:3],
                 'query_vars_unbound': all(not (isinstance(v, E.Variable) and v._is_bound) for v in rargs)})
@@ -230,8 +264,9 @@ def run_forked(ctx, prog, jobs, timeout=60):
         signal.setitimer(signal.ITIMER_REAL, 0)
         try:
             out = []
-            for limit, fault, hold in jobs:
-                o = child(ctx, prog, limit, fault, hold)
+            for job in jobs:
+                limit, fault, hold = job[0], job[1], job[2]
+                o = child(ctx, prog, limit, fault, hold, nested=(len(job) > 3 and job[3]))
                 out.append(o)
                 if o['after_limit'] != o['before_limit'] or o['bound_after'] > 0:
                     break
@@ -319,7 +354,7 @@ def run_case(ctx, seed, idx, tier):
         rng = random.Random((seed * 1000003 + idx) * 7 + 17 + limit * 1009)
         fault = rng.choice(FAULTS[1:]) if rng.random() < 0.6 else None
         hold = rng.random() < 0.4
-        jobs.append((limit, fault, hold))
+        jobs.append((limit, fault, hold, rng.random() < 0.2))
     r = run_forked(ctx, prog, jobs)
     c0 = {'forked_children': 1}
     if r.get('timeout') or r.get('died') or 'crash' in r:
@@ -344,11 +379,14 @@ def run_case(ctx, seed, idx, tier):
 
 
 def judge(ctx, prog, job, r, idx):
-    limit, fault, hold = job
+    limit, fault, hold = job[0], job[1], job[2]
+    nested = len(job) > 3 and job[3]
     c = {'cases': 1}
+    if nested:
+        c['nested_evaluate_bounded'] = 1
     w = {'program': rprogram(prog[1]), 'name': prog[0], 'query': '%s(%s)' % (prog[2], ','.join(rterm(a) for a in prog[3])),
-         'limit': limit, 'fault': fault, 'hold_generator': hold, 'idx': idx}
-    key = (prog[0], limit, fault, hold)
+         'limit': limit, 'fault': fault, 'hold_generator': hold, 'idx': idx, 'nested': nested}
+    key = (prog[0], limit, fault, hold, nested)
     expd = ctx['expected'][prog[0]]
     if prog[0] == 'leftrec' and 'discard' in expd:
         expd = {'answers': []}     # by construction: infinite left recursion before any answer
@@ -408,6 +446,8 @@ def judge(ctx, prog, job, r, idx):
                 return viol('result_longer_than_fault_point', {'fault': fault, 'got': len(res)})
     if o['after_limit'] != o['before_limit']:
         return viol('recursion_limit_not_restored', {'before': o['before_limit'], 'after': o['after_limit'], 'trace': o['trace']})
+    if o.get('inner_results') and any(n != 2 for n in o['inner_results']):
+        return viol('nested_evaluate_bounded_wrong_result', {'inner_results': o['inner_results']})
     if not o['trace'] or o['trace'][0] != limit or o['trace'][-1] != o['before_limit']:
         return viol('unexpected_setrecursionlimit_trace', {'trace': o['trace'], 'limit': limit, 'before': o['before_limit']})
     if o['bound_after'] > 0 or not o['query_vars_unbound']:
@@ -434,5 +474,5 @@ def dstat_answers(direct, dstat, exp):
 def replay(ctx, w):
     prog = [p for p in progs() if p[0] == w['name']][0]
     fault = tuple(w['fault']) if w['fault'] else None
-    job = (w['limit'], fault, w['hold_generator'])
+    job = (w['limit'], fault, w['hold_generator'], w.get('nested', False))
     return judge(ctx, prog, job, run_forked(ctx, prog, [job]), w.get('idx', 0))
